@@ -77,6 +77,13 @@ def _chunk(args):
         if tie:
             out.count('ties-not-judged')
             continue
+        # the hypothesis of C07_wait_always_returns / C03_all_delivered_when_nothing_can_move: the model came to rest
+        if ' rest=1 ' in ans:
+            out.count('model-at-rest')
+        else:
+            out.count('model-not-at-rest')
+            out.diffs.append({'case': case, 'impl': B.canon(evs), 'model': ans[:300],
+                              'where': 'the model did not come to rest after the program (AtRest false)'})
         for (p, kind, detail) in B.monitors(T, prog, outcomes, evs, {prop}):
             out.concrete.append({'case': case, 'what': f'{kind}: {detail}', 'observed': B.canon(evs),
                                  'signature': {'kind': kind}})
